@@ -205,12 +205,12 @@ func init() {
 			if tier == "thorough" {
 				return 1 + n*n + mutT + 24 + 40
 			}
-			return 1 + n*n + mutQ + 12 + 8
+			return 1 + n*n + mutQ + 14 + 8
 		},
 		Run: func(c *rt.Ctx) {
 			entries := c06Entries()
 			n := len(Alphabet28)
-			nmut, ntow, ntyped := mutQ, 12, 8
+			nmut, ntow, ntyped := mutQ, 14, 8
 			sufLen := 1
 			if c.Tier == "thorough" {
 				nmut, ntow, ntyped, sufLen = mutT, 24, 40, 2
@@ -285,6 +285,23 @@ func init() {
 			case c.Idx <= n*n+nmut+ntow:
 				// nesting towers
 				k := c.Idx - (n*n + nmut) - 1
+				if c.Tier != "thorough" && k >= 12 {
+					// the path evaluators alone on towers far beyond the nesting limit: a level that is not
+					// counted is a level of native recursion (every entry point gets these depths in the
+					// thorough tier)
+					var pe []c06Entry
+					for _, e := range entries {
+						if strings.HasPrefix(e.name, "Path.") {
+							pe = append(pe, e)
+						}
+					}
+					sh := [][3]string{{"[", "]", "1"}, {"[", "", ""}}[k-12]
+					doc := tower(sh[0], sh[1], 5000000, sh[2])
+					c06Run(c, 0, pe, doc, fmt.Sprintf("tower:%s x 5000000 (path entries)", sh[0]))
+					c.ObsMax("max_nesting_depth_path_entries", 5000000)
+					c.NonTrivial("tower-path", sh[0], sh[1])
+					return
+				}
 				depths := []int{100, 1000, 9999, 10000, 10001, 100000}
 				if c.Tier == "thorough" {
 					depths = []int{100, 1000, 9999, 10000, 10001, 100000, 1000000, 10000000}
